@@ -303,3 +303,126 @@ pub fn kana_family() -> Vec<Content> {
     }
     v
 }
+
+/// Every string of the shared tricky catalogue (`vcore::sjis::tricky_strings`) in every role:
+/// string cell, second string cell (next catalogue entry), c-string, two labels on one
+/// address, label on the end address.
+pub fn tricky_family() -> Vec<Content> {
+    let strings = vcore::sjis::tricky_strings();
+    let mut v = Vec::new();
+    for e in [End::Little, End::Big] {
+        for (i, s) in strings.iter().enumerate() {
+            let other = &strings[(i + 1) % strings.len()];
+            let mut c = Content::new(e);
+            c.data = vec![0; 12];
+            c.strings.insert(0, s.to_string());
+            c.strings.insert(4, other.to_string());
+            c.cstrings.insert(8, s.to_string());
+            c.labels.insert(0, vec![s.to_string(), other.to_string()]);
+            c.labels.insert(12, vec![format!("{}x", s)]);
+            v.push(c);
+        }
+    }
+    v
+}
+
+/// Label names whose code-point order and Shift-JIS byte order differ, on distinct addresses
+/// (big-endian sorts the table by name) — both address orders.
+pub fn collation_family() -> Vec<Content> {
+    let mut v = Vec::new();
+    for e in [End::Little, End::Big] {
+        for (a, b) in vcore::sjis::collation_inversions() {
+            for swap in [false, true] {
+                let (x, y) = if swap { (b.clone(), a.clone()) } else { (a.clone(), b.clone()) };
+                let mut c = Content::new(e);
+                c.data = vec![0; 8];
+                c.labels.insert(0, vec![format!("MPID_{}", x)]);
+                c.labels.insert(4, vec![format!("MPID_{}", y)]);
+                c.labels.insert(8, vec![x.clone()]);
+                c.strings.insert(0, y.clone());
+                v.push(c);
+            }
+        }
+    }
+    v
+}
+
+/// DENSE sweeps (every value, not a ladder): a string / c-string / label of every encoded
+/// length 0..=max_len (ASCII, and two-byte characters with an optional ASCII shift), and raw
+/// data of every length 0..=max_data with annotations on the first and last cell and the end.
+pub fn dense_family(max_len: usize, max_data: usize) -> Vec<Content> {
+    let mut v = Vec::new();
+    for e in [End::Little, End::Big] {
+        for k in 0..=max_len {
+            for kind in 0..3 {
+                let s: String = match kind {
+                    0 => "abcdefghijklmnopqrstuvwxyz0123456789".chars().cycle().take(k).collect(),
+                    1 => "漢字".chars().cycle().take(k / 2).collect::<String>() + if k % 2 == 1 { "z" } else { "" },
+                    _ => {
+                        if k == 0 {
+                            continue;
+                        }
+                        "z".to_string() + &"ソ能".chars().cycle().take((k - 1) / 2).collect::<String>() + if (k - 1) % 2 == 1 { "n" } else { "" }
+                    }
+                };
+                let mut c = Content::new(e);
+                c.data = vec![0; 8];
+                match k % 3 {
+                    0 => {
+                        c.strings.insert(0, s.clone());
+                        c.labels.insert(4, vec!["k".into(), s.clone()]);
+                    }
+                    1 => {
+                        c.cstrings.insert(0, s.clone());
+                        c.strings.insert(4, s.clone());
+                    }
+                    _ => {
+                        c.labels.insert(0, vec![s.clone()]);
+                        c.cstrings.insert(4, format!("{}!", s));
+                    }
+                }
+                v.push(c);
+            }
+        }
+        for l in 0..=max_data {
+            let mut c = Content::new(e);
+            c.data = (0..l).map(|i| (i as u8).wrapping_mul(13).wrapping_add(1)).collect();
+            if l >= 4 {
+                c.data[0..4].copy_from_slice(&[0; 4]);
+                c.strings.insert(0, "first".into());
+            }
+            if l >= 8 {
+                let a = (l / 4 - 1) * 4;
+                c.data[a..a + 4].copy_from_slice(&[0; 4]);
+                c.pointers.insert(a, l);
+            }
+            c.labels.insert(l, vec!["End".into()]);
+            if l > 0 {
+                c.labels.insert(l - 1, vec!["Last".into()]);
+            }
+            v.push(c);
+        }
+    }
+    v
+}
+
+/// Many label rows with several labels per address in unsorted name order (a parser that
+/// re-sorts the table must keep the per-address order): 3..=40 cells × 1..=3 labels.
+pub fn many_labels_family() -> Vec<Content> {
+    let mut v = Vec::new();
+    for e in [End::Little, End::Big] {
+        for cells in 3..=40usize {
+            for per in 1..=3usize {
+                let mut c = Content::new(e);
+                c.data = vec![0; 4 * cells];
+                for i in 0..cells {
+                    // names chosen so that the big-endian (by first name) order differs from address order
+                    let names: Vec<String> = (0..per).map(|j| format!("{}{:02}", ["B", "A", "C"][(j + i) % 3], (cells * 7 - i * 3) % 53)).collect();
+                    c.labels.insert(4 * i, names);
+                }
+                v.push(c);
+            }
+        }
+    }
+    v
+}
